@@ -156,38 +156,106 @@ def specArgvLayout (base : List Bytes) (kept : List RArg) (argv : List Bytes) : 
 
 /-! ### String command lines: the words the administrator wrote, with macro values verbatim -/
 
-/-- Placeholder for the `i`-th macro of a template: two bytes that no generated template contains. -/
-def placeholder (i : Nat) : Bytes := [1, UInt8.ofNat (65 + i)]
+/-- A template seen by the shell lexer at property level: literal bytes, and macros as opaque word constituents. -/
+inductive Sym
+  | byte (c : UInt8)
+  | mac (name : Bytes)
+  deriving Repr, DecidableEq
 
-def substTemplate : Nat → List Tok → Option Bytes
-  | _, [] => some []
-  | i, .lit b :: ts => (substTemplate i ts).map (b ++ ·)
-  | i, .mac _ :: ts => (substTemplate (i + 1) ts).map (placeholder i ++ ·)
-  | _, .unclosed :: _ => none
+structure SymSt where
+  done : List (List Sym) := []
+  cur : Option (List Sym) := none
+  mode : ShMode := .unq
+  deriving Repr, DecidableEq
+
+def SymSt.push (s : SymSt) (x : Sym) : SymSt := { s with cur := some (s.cur.getD [] ++ [x]) }
+
+/-- `shStep` on templates: a literal byte acts as in `shStep`; a macro is an ordinary word constituent. -/
+def symStep (s : SymSt) : Sym → Except ShErr SymSt
+  | .mac n =>
+    match s.mode with
+    | .bs => pure { s.push (.mac n) with mode := .unq }
+    | _ => pure (s.push (.mac n))
+  | .byte c =>
+    match s.mode with
+    | .sq => if c = SQUOTE then pure { s with mode := .unq } else pure (s.push (.byte c))
+    | .bs => if c = LF then throw .interpreted else pure { s.push (.byte c) with mode := .unq }
+    | .dq =>
+      if c = 34 then pure { s with mode := .unq }
+      else if c = 36 || c = 96 || c = BSLASH then throw .interpreted
+      else pure (s.push (.byte c))
+    | .unq =>
+      if c = SQUOTE then pure { s with cur := some (s.cur.getD []), mode := .sq }
+      else if c = 34 then pure { s with cur := some (s.cur.getD []), mode := .dq }
+      else if c = BSLASH then pure { s with cur := some (s.cur.getD []), mode := .bs }
+      else if c = SPACE || c = 9 then
+        match s.cur with
+        | none => pure s
+        | some w => pure { s with done := w :: s.done, cur := none }
+      else if shSpecial c then throw .interpreted
+      else pure (s.push (.byte c))
+
+def symRun : SymSt → List Sym → Except ShErr SymSt
+  | s, [] => pure s
+  | s, x :: xs => do
+    let s' ← symStep s x
+    symRun s' xs
+
+def SymSt.finish (s : SymSt) : Except ShErr (List (List Sym)) :=
+  match s.mode with
+  | .unq => pure ((match s.cur with | none => s.done | some w => w :: s.done).reverse)
+  | _ => throw .unterminated
+
+def symLine : List Tok → Option (List Sym)
+  | [] => some []
+  | .lit b :: ts => (symLine ts).map (b.map .byte ++ ·)
+  | .mac n :: ts => (symLine ts).map (.mac n :: ·)
+  | .unclosed :: _ => none
+
+/-- Put each macro's value — verbatim — where the macro stood. -/
+def fillSym (valueOf : Bytes → Option Bytes) : List Sym → Bytes
+  | [] => []
+  | .byte c :: r => c :: fillSym valueOf r
+  | .mac n :: r => (valueOf n).getD [] ++ fillSym valueOf r
+
+def fillSt (valueOf : Bytes → Option Bytes) (s : SymSt) : ShSt :=
+  { done := s.done.map (fillSym valueOf), cur := s.cur.map (fillSym valueOf), mode := s.mode }
+
+/-- The line the code builds: every macro replaced by `EscapeShellArg(value)`. -/
+def renderEsc (valueOf : Bytes → Option Bytes) : List Sym → Bytes
+  | [] => []
+  | .byte c :: r => c :: renderEsc valueOf r
+  | .mac n :: r => escapeShellArg ((valueOf n).getD []) ++ renderEsc valueOf r
+
+/-- Every macro of the template stands where the lexer is in its unquoted state. -/
+def UnqAtMacros : SymSt → List Sym → Prop
+  | _, [] => True
+  | s, .byte c :: r => ∀ s', symStep s (.byte c) = .ok s' → UnqAtMacros s' r
+  | s, .mac n :: r => s.mode = .unq ∧ UnqAtMacros (s.push (.mac n)) r
+
 
 def macroNames : List Tok → List Bytes
   | [] => []
   | .mac n :: ts => n :: macroNames ts
   | _ :: ts => macroNames ts
 
-/-- Replace every placeholder in a word by the value of its macro. -/
-def fillWord (vals : List Bytes) : Bytes → Bytes
-  | 1 :: c :: r => (if 65 ≤ c.toNat then vals.getD (c.toNat - 65) [] else [1, c]) ++ fillWord vals r
-  | c :: r => c :: fillWord vals r
-  | [] => []
+def symWords (syms : List Sym) : Except ShErr (List (List Sym)) := do
+  let s ← symRun {} syms
+  s.finish
 
 /-- The argument vector a string command line denotes at property level: lex the TEMPLATE as sh would
     (macros are opaque word constituents there), then put each macro's value — verbatim — where the
     macro stood.  `none`: template outside the lexer's fragment or a macro without a scalar value. -/
 def specExpectedArgv (template : Bytes) (valueOf : Bytes → Option Bytes) : Option (List Bytes) :=
   let toks := tokenize template
-  match substTemplate 0 toks, (macroNames toks).mapM valueOf with
-  | some line, some vals =>
-    if vals.length > 26 then none else
-    match shWords line with
-    | .ok ws => some (ws.map (fillWord vals))
-    | .error _ => none
-  | _, _ => none
+  match symLine toks with
+  | some syms =>
+    if (macroNames toks).all (fun n => (valueOf n).isSome) then
+      match symWords syms with
+      | .ok ws => some (ws.map (fillSym valueOf))
+      | .error _ => none
+    else none
+  | none => none
 
 def specStringCmd (template : Bytes) (valueOf : Bytes → Option Bytes) (argv : List Bytes) : Option Clause :=
   match specExpectedArgv template valueOf with
